@@ -1,5 +1,6 @@
 """Catalogue of exception classes and awkward argument values for C19 / C20 (importable module:
 classes defined here are resolvable through sys.modules['vt.harness.excat'])."""
+import dataclasses
 import datetime
 import decimal
 import threading
@@ -63,6 +64,24 @@ class ValueInit(Exception):
         if isinstance(n, str):
             raise ValueError("n must not be a string")
         super().__init__(str(n))
+
+
+class ValueEq(Exception):
+    """value equality: two different objects of equal content compare equal (and hash alike)."""
+
+    def __eq__(self, other):
+        return type(other) is type(self) and other.args == self.args
+
+    def __hash__(self):
+        return hash(type(self))
+
+
+@dataclasses.dataclass
+class DataErr(Exception):
+    """an ordinary dataclass exception: generated __eq__, and therefore unhashable."""
+
+    code: object = None
+    detail: object = None
 
 
 def make_local():
